@@ -59,7 +59,8 @@ def observe(text):
     buf = io.StringIO()
     ast.show(buf=buf)
     lines = buf.getvalue().count("\n")
-    return "OK\t%d\t%s\t%d\t%d\t%d" % (count(ast), " ".join(trace), lines, hits["x"], hits["g"])
+    from ..pyparse import dump
+    return ("OK\t%d\t%s\t%d\t%d\t%d" % (count(ast), " ".join(trace), lines, hits["x"], hits["g"]), dump(ast, False))
 
 
 def classify(replay):
@@ -70,8 +71,10 @@ def classify(replay):
 def run(ctx):
     texts = [t for t in progs.pool(ctx, scale=0.3) if len(t) < 6000]
     ctx.rule("class-level part: 49 classes x every subset of absent node-valued fields, exhaustive, as kernel-checked obligations on regenerated observations; tree-level part: for the programs of the pool (" + progs.RULE + ") a counting NodeVisitor, a visitor overriding visit_BinaryOp/visit_Decl/visit_Compound and show() on the real AST vs the generic model")
-    obs = pmap(observe, texts)
-    md = run_model([req("reflect", "", t, ",".join(OVERRIDE)) for t in texts]) if ctx.model_available else None
+    both = pmap(observe, texts)
+    obs = [b[0] if b else None for b in both]
+    # the real AST (dumped) is handed to the generic model: no dependence on the parser model
+    md = run_model([req("reflectast", b[1] if b else "~", ",".join(OVERRIDE)) for b in both]) if ctx.model_available else None
     keys = set()
     for i, (t, o) in enumerate(zip(texts, obs)):
         if o is None:
@@ -90,7 +93,7 @@ def run(ctx):
 
 
 def replay(ctx, payload):
-    o = observe(payload["input"]["text"])
+    o = observe(payload["input"]["text"])[0]
     print(o)
     f = o.split("\t")
     return int(f[1]) == len(f[2].split()) == int(f[3])
@@ -99,7 +102,7 @@ def replay(ctx, payload):
 def replay_finding(ctx, f):
     w = f["witness"]
     if w["kind"] == "show_lines":
-        o = observe(w["text"])
+        o = observe(w["text"])[0]
         f2 = o.split("\t")
         return int(f2[1]) != int(f2[3])
     return still_fails(w)
